@@ -97,7 +97,7 @@ def late_grandchild():
                 actors={'poll': [['poll', 't_p', 'P1'], ['poll', 'd2', 'P1']]}, horizon=5)
 
 
-def errors(kind='ValueError', where='parent', sync=False, after_sleep=True, ret_exc=False, root_cls='P'):
+def errors(kind='ValueError', where='parent', sync=False, after_sleep=True, ret_exc=False, root_cls='P', only_failing=False):
     """a raising handler (or one returning an exception object) placed as parent / awaited child / ff child; other events in flight."""
     boom = ([['sleep', 'd1']] if (after_sleep and not sync) else []) + ([['ret_exc', kind]] if ret_exc else [['raise', kind]])
     if kind == 'InnerTimeout':
@@ -113,10 +113,16 @@ def errors(kind='ValueError', where='parent', sync=False, after_sleep=True, ret_
     else:
         handlers += [['A', 'P', 'hP', [['disp', 'A', 'C', 'C1'], ['sleep', 'd2'], ['ret', 'p']]],
                      ['A', 'C', 'hBoom', boom, {'sync': sync}], ['A', 'C', 'hOk', ok]]
+    if only_failing:
+        # no handler of the failing event produces a usable value (the others return None)
+        for h in handlers:
+            if h[2] in ('hOk', 'hOk2'):
+                h[3] = [st if st[0] != 'ret' else ['ret', None] for st in h[3]]
     target = 'P1' if where == 'parent' else 'C1'
     main = [['root', 'A', root_cls, 'P1'], ['root', 'A', 'L', 'L1'], ['await', 'P1'], ['idle', 'A'],
             ['accessor', target, {'raise_if_any': True, 'raise_if_none': False}],
-            ['accessor', target, {'raise_if_any': False, 'raise_if_none': False}], ['obs_all', 'end']]
+            ['accessor', target, {'raise_if_any': False, 'raise_if_none': False}],
+                   ['accessor', target, {'raise_if_any': False, 'raise_if_none': True}], ['obs_all', 'end']]
     return dict(buses=['A'], reals={'d1': D, 'd2': D, 't_x': TI}, handlers=handlers, main=main,
                 actors={'x': [['sleep', 't_x'], ['root', 'A', 'X', 'X1']]}, horizon=5)
 
